@@ -77,8 +77,9 @@ CHECKS = {
     note="Per-shard counts come from M-FILL (C10). pydantic (de)serialisation and the shard decoders are modelled-not-verified; multi-writer calls run single_process here (real processes: C09).",
     ref="DESIGN.md §5 C04, Appendix A.2"),
  "C08": dict(
-    technique="Lean 4 proof (merge never changes any list's shard files, keeps reachable directories reachable, reaches every update; sessions only append) + per-split before/after multiset comparison on generated histories; create-refused check",
-    text="C08_merge_keeps_files, C08_merge_keeps_reachable, C08_session_append_only, C08_untouched_dirs_unchanged, C08_create_refused. After every session of a generated history the "
+    technique="Lean 4 proof (merge never changes any list's shard files, keeps reachable directories reachable, reaches every update, makes nothing else reachable; enumeration = shard entries of the reachable lists; a session adds exactly the shards it closed, for every history of completed sessions) + per-split before/after multiset comparison on generated histories; create-refused check",
+    text="C08_merge_keeps_files, C08_merge_keeps_reachable, C08_session_append_only, C08_untouched_dirs_unchanged, C08_session_adds_exactly (iff, in terms of what the depth-first walk enumerates), "
+         "C08_history_invariant (exactness and absence of unlinked lists after every history from the empty dataset), C08_enumeration_is_reachable_lists, C08_create_refused. After every session of a generated history the "
          "examples reachable per split are exactly previous + newly written; Dataset.create on an existing dataset raises and leaves all files byte-identical.",
     note="Same model and externals as C04.",
     ref="DESIGN.md §5 C08"),
